@@ -91,4 +91,16 @@ template<class T> struct hallocator {
 	friend bool operator!=(hallocator const&, hallocator const&) { return false; }
 };
 
+// ---- like hallocator, but the memory comes zeroed: storage of a nested array element (NestElem) whose trivially
+// constructible ints a cut load leaves unwritten must not carry process history into the logs (determinism)
+template<class T> struct zallocator {
+	using value_type = T;
+	zallocator()     = default;
+	template<class U> zallocator(zallocator<U> const&) {}  // NOLINT
+	auto allocate(std::size_t n) -> T* { return static_cast<T*>(std::calloc(n * sizeof(T) + 1, 1)); }
+	void deallocate(T* p, std::size_t /*n*/) { std::free(p); }
+	friend bool operator==(zallocator const&, zallocator const&) { return true; }
+	friend bool operator!=(zallocator const&, zallocator const&) { return false; }
+};
+
 }  // namespace sim
